@@ -60,6 +60,8 @@ def targets(T: str) -> dict[str, tuple[dict[str, str], str, str, str]]:  # noqa:
     c = CLS.format(n=B, T=T)
     t: dict[str, tuple[dict[str, str], str, str, str]] = {}
     t["same_module"] = ({}, c, B, f"a{T}.py")
+    # the class is defined in the user module itself, and the package re-exports it (its stub moves to the package)
+    t["same_module_reexported_by_pkg"] = ({"__init__.py": f"from .a{T} import {B}\n"}, c, B, f"a{T}.py")
     t["same_module_nested"] = ({}, f"class O{T}:\n    class I{T}:\n        def m{T}(self) -> int:\n            return 1\n", f"O{T}.I{T}", f"a{T}.py")
     t["sibling_abs"] = ({f"b{T}.py": c}, f"from {PKG}.u{T}.b{T} import {B}\n", B, f"a{T}.py")
     t["sibling_rel"] = ({f"b{T}.py": c}, f"from .b{T} import {B}\n", B, f"a{T}.py")
@@ -78,6 +80,8 @@ def targets(T: str) -> dict[str, tuple[dict[str, str], str, str, str]]:  # noqa:
     t["reexp_by_other_pkg_alias"] = ({f"io{T}/__init__.py": "", f"io{T}/_b{T}.py": c, f"facade{T}/__init__.py": f"from {PKG}.u{T}.io{T}._b{T} import {B}\n", f"facade{T}/x{T}.py": f"def xf{T}() -> int:\n    return 1\n"}, f"from {PKG}.u{T}.facade{T} import {B}\n", B, f"a{T}.py")
     # the same with the relative spelling of the import in the re-exporting package ('from ..io import')
     t["reexp_by_other_pkg_two_dots"] = ({f"io{T}/__init__.py": "", f"io{T}/_b{T}.py": c, f"facade{T}/__init__.py": f"from ..io{T}._b{T} import {B}\n", f"facade{T}/x{T}.py": f"def xf{T}() -> int:\n    return 1\n"}, f"from {PKG}.u{T}.facade{T} import {B}\n", B, f"a{T}.py")
+    # a sibling package of the SAME depth as the defining module re-exports the class: the class is not moved there
+    t["reexp_by_equally_deep_pkg"] = ({f"b{T}.py": c, f"compat{T}/__init__.py": f"from {PKG}.u{T}.b{T} import {B}\n", f"compat{T}/x{T}.py": f"def xf{T}() -> int:\n    return 1\n"}, f"from .b{T} import {B}\n", B, f"a{T}.py")
     chain = {f"cp{T}/__init__.py": f"from ._b{T} import {B}\n", f"cp{T}/_b{T}.py": c, "__init__.py": f"from .cp{T} import {B}\n"}
     t["reexp_chain_via_pkg"] = (chain, f"from {PKG}.u{T} import {B}\n", B, f"a{T}.py")
     t["reexp_chain_via_sub"] = (chain, f"from {PKG}.u{T}.cp{T} import {B}\n", B, f"a{T}.py")
@@ -103,6 +107,8 @@ def targets(T: str) -> dict[str, tuple[dict[str, str], str, str, str]]:  # noqa:
     t["lib_pathlib"] = ({}, "from pathlib import Path\n", "Path", f"a{T}.py")
     t["lib_decimal_alias"] = ({}, "from decimal import Decimal as Dec\n", "Dec", f"a{T}.py")
     t["lib_unresolvable"] = ({}, f"from thirdparty{T} import Thing{T}  # type: ignore[import-not-found]\n", f"Thing{T}", f"a{T}.py")
+    # the same library class, reached through the module ('import thirdparty as tp; tp.Thing')
+    t["lib_unresolvable_via_module"] = ({}, f"import thirdparty{T} as tp{T}  # type: ignore[import-not-found]\n", f"tp{T}.Thing{T}", f"a{T}.py")
     for b in ("bytes", "complex", "object", "frozenset", "Exception", "range"):
         t[f"builtin_{b}"] = ({}, "", b, f"a{T}.py")
     return t
